@@ -133,14 +133,22 @@ def pickY (keys : List (Nat × Int)) (cent : List (V3 α)) : Option (V3 α × Op
       let m := mean cent
       if lt (norm m) yPrec then none else some (m, none)
 
-/-- `pick_z` on the unmasked neighbours: (connectivity, identifier, centred coordinate, |long angle|) -/
-def pickZ (cand : List (Nat × Int × V3 α × α)) (y : V3 α) : Option (V3 α) :=
+/-- the candidate `pick_z` selects, projected onto the plane orthogonal to `y`; unmasked neighbours:
+(connectivity, identifier, centred coordinate, |long angle|) -/
+def pickZRaw (cand : List (Nat × Int × V3 α × α)) (y : V3 α) : Option (V3 α) :=
   let tagged := cand.zipIdx.map (fun p => (truncNat (div p.1.2.2.2 zPrec), p.1.1, p.1.2.1, p.2))
   let sorted := sortByLt lt4 tagged
   match firstUnique (sorted.map (fun t => (t.1, t.2.1))) with
   | some k =>
     let zi := (sorted.getD k (0, 0, 0, 0)).2.2.2
     some (projectToPlane ((cand.getD zi (0, 0, vzero, zero)).2.2.1) y)
+  | none => none
+
+/-- `pick_z`: an atom on the y-axis has no direction orthogonal to `y` (its projection is the zero vector -
+round-off noise in floating point) and cannot define `z` -/
+def pickZ (cand : List (Nat × Int × V3 α × α)) (y : V3 α) : Option (V3 α) :=
+  match pickZRaw cand y with
+  | some z => if lt (norm z) eps then none else some z
   | none => none
 
 /-- `stereo_indicators_from_shell`: one code per neighbour, in the order given.
